@@ -32,13 +32,30 @@ def make_event(case):
         root = build(case)
     except BaseException as e:  # noqa
         return {"typ": "visit", "cls": "btn", "root": 0, "orders": {}, "h": {"n": 0, "l": [], "r": [], "p": []}, "setup_exc": type(e).__name__}
+    via = case.get("via", "")
+    if via:
+        # the tree under observation is a copy made by the standard copy protocol (of the root, of the root after a layout run left
+        # its bookkeeping on the nodes, or of the post-order node list - a descendant is reached before its ancestor)
+        import copy
+        from mathy_core.layout import TreeLayout
+        try:
+            if via == "deepcopy_after_layout":
+                TreeLayout().layout(root)
+            if via == "deepcopy_of_list":
+                lst = []
+                root.visit_postorder(lambda n, d, x: lst.append(n))
+                root = copy.deepcopy(lst)[-1]
+            else:
+                root = copy.deepcopy(root)
+        except BaseException as e:  # noqa
+            return {"typ": "visit", "cls": "btn", "root": 0, "orders": {}, "h": {"n": 0, "l": [], "r": [], "p": []}, "setup_exc": type(e).__name__}
     objs = project.ObjTable()
     project.absorb(objs, [root])
     if case["cls"] == "expr" and case.get("dupids"):
         nodes = list(objs.keep)
         for k, nd in enumerate(nodes):
             nd.id = "id%d" % (k % max(1, len(nodes) - 1))  # one duplicated id when n >= 2
-    ev = {"typ": "visit", "cls": "expr" if case["cls"] in ("expr", "uniform") else "btn", "root": objs.of(root), "orders": {}}
+    ev = {"typ": "visit", "cls": "expr" if case["cls"] in ("expr", "uniform") else "btn", "root": objs.of(root), "orders": {}, "via": via}
     for o, meth in ORD.items():
         calls = []
 
@@ -47,6 +64,24 @@ def make_event(case):
             return None
         ret = getattr(root, meth)(rec)
         full = {"full": calls, "stops": [], "ret": "none" if ret is None else str(ret)}
+        # the optional parameters at non-default values: a start depth (positional / keyword) and a data object handed through
+        shifted = []
+        for d0, kw in ((3, False), (7, True)):
+            got = []
+            token = ["payload", d0]
+
+            def rec_d(node, depth, data, got=got, token=token):
+                got.append([objs.of(node), depth - d0 if data is token else -99])
+                return None
+            try:
+                if kw:
+                    getattr(root, meth)(rec_d, depth=d0, data=token)
+                else:
+                    getattr(root, meth)(rec_d, d0, token)
+            except BaseException:  # noqa
+                got.append([-1, -1])
+            shifted.append(got)
+        full["shifted"] = shifted
         n = len(objs)
         for k in list(range(1, n + 1)) + [n + 1]:
             calls_k = []
@@ -242,9 +277,14 @@ def domain(ctx):
             cases.append({"shape": s, "cls": "uniform"})
             cases.append({"shape": s, "cls": "btn_sameid"})
     rng = random.Random(ctx.seed)
+    for s in shapes.shapes_upto(5 if ctx.quick else 6):
+        for via in ("deepcopy", "deepcopy_after_layout", "deepcopy_of_list"):
+            cases.append({"shape": s, "cls": "btn", "via": via})
+            if shapes.size(s) >= 2:
+                cases.append({"shape": s, "cls": "expr", "via": via})
     for _ in range(60 if ctx.quick else 600):   # seeded random larger shapes
         cases.append({"shape": random_shape(rng, rng.randint(n + 1, 14)), "cls": rng.choice(["btn", "expr"]), "dupids": True})
-    return cases, "all %d binary tree shapes with <= %d nodes (plain nodes; expression-typed nodes for the smaller ones) + seeded random shapes up to 14 nodes; 3 orders x every stop position (the stop signal alternately the library constant and an equal string built at run time); all look-ups on every node; for expression trees of 2..5 (thorough: 7) nodes, look-ups from every node repeated on the same objects after rotate / rotate twice / swapped operands / a new root / a replaced subtree at every node" % (
+    return cases, "all %d binary tree shapes with <= %d nodes (plain nodes; expression-typed nodes for the smaller ones) + seeded random shapes up to 14 nodes; 3 orders (also with a start depth and a data object given positionally / by keyword) x every stop position (the stop signal alternately the library constant and an equal string built at run time); all look-ups on every node; the same on copies made by copy.deepcopy (of the root, after a layout run, of the post-order node list) of every shape <= 5 (6) nodes; for expression trees of 2..5 (thorough: 7) nodes, look-ups from every node repeated on the same objects after rotate / rotate twice / swapped operands / a new root / a replaced subtree at every node" % (
         len(shapes.shapes_upto(n)), n)
 
 
